@@ -272,7 +272,20 @@ type cmap4Iter struct {
 }
 
 func (it *cmap4Iter) Next() bool {
-	return it.pos1 < len(it.data)
+	for it.pos1 < len(it.data) {
+		entry := it.data[it.pos1]
+		if entry.indexes == nil || entry.indexes[it.pos2] != 0 {
+			return true
+		}
+		// the rune is mapped to the missing glyph : skip it, as Lookup does
+		if it.pos2 == len(entry.indexes)-1 {
+			it.pos2 = 0
+			it.pos1++
+		} else {
+			it.pos2++
+		}
+	}
+	return false
 }
 
 func (it *cmap4Iter) Char() (r rune, gy GID) {
@@ -662,6 +675,20 @@ func (cm cmap4) RuneRanges(dst [][2]rune) [][2]rune {
 	}
 	dst = dst[:0]
 	for _, e := range cm {
+		if e.indexes != nil {
+			// only keep the runes with a valid glyph, as Lookup does
+			for i := 0; i < len(e.indexes); i++ {
+				if e.indexes[i] == 0 {
+					continue
+				}
+				first := i
+				for i+1 < len(e.indexes) && e.indexes[i+1] != 0 {
+					i++
+				}
+				dst = append(dst, [2]rune{rune(e.start) + rune(first), rune(e.start) + rune(i)})
+			}
+			continue
+		}
 		start, end := rune(e.start), rune(e.end)
 		if L := len(dst); L != 0 && dst[L-1][1] == start {
 			// grow the previous range
